@@ -23,7 +23,7 @@ pub fn gen_queries(src: &mut Src, alpha: &[u32], node: &Node, fl: Fl, n: u32) ->
         .map(|_| {
             let hay = src.pick(&hays).clone();
             let start = gen_start(src, &hay);
-            let api = if hay.is_ascii() { src.below(3) as u8 } else { *src.pick(&[0u8, 2]) };
+            let api = if hay.is_ascii() { src.below(7) as u8 } else { *src.pick(&[0u8, 2, 3, 4, 5]) };
             let take = *src.pick(&[usize::MAX, usize::MAX, 0, 1, 2]);
             Query { hay, start, api, take }
         })
@@ -53,13 +53,49 @@ pub fn queries_from(v: &Value) -> Vec<Query> {
 }
 
 pub fn run_query(re: &regress::Regex, q: &Query) -> Out {
+    run_query_on(re, q, &q.hay)
+}
+
+/// `text` holds the query's haystack (possibly in a buffer that is re-used between queries, as a caller
+/// reading fixed-width records into one String would do).
+pub fn run_query_on(re: &regress::Regex, q: &Query, text: &str) -> Out {
+    // the convenience entry points have their own code paths
+    if q.api >= 3 {
+        regress::verif::set_fuel(600_000);
+        let r = std::panic::catch_unwind(std::panic::AssertUnwindSafe(|| match q.api {
+            3 => re.find(text).map(|m| vec![M::from(&m)]).unwrap_or_default(),
+            4 => {
+                let s = re.replace(text, "[$0]");
+                vec![M { s: s.len(), e: crate::src::fnv(s.as_bytes()) as usize, caps: vec![] }]
+            }
+            5 => {
+                let s = re.replace_all(text, "<$1>");
+                vec![M { s: s.len(), e: crate::src::fnv(s.as_bytes()) as usize, caps: vec![] }]
+            }
+            _ => {
+                if text.is_ascii() {
+                    re.find_ascii(text).map(|m| vec![M::from(&m)]).unwrap_or_default()
+                } else {
+                    vec![]
+                }
+            }
+        }));
+        let cut = regress::verif::report().exhausted;
+        regress::verif::set_fuel(u64::MAX);
+        return match r {
+            Err(p) => Out::Panic(panic_msg(p)),
+            Ok(_) if cut => Out::Cut,
+            Ok(v) => Out::Ms(v),
+        };
+    }
+    let q = &Query { hay: String::new(), ..q.clone() };
     let (eng, enc) = match q.api {
-        1 if q.hay.is_ascii() => (Engine::Bt, Enc::Ascii),
+        1 if text.is_ascii() => (Engine::Bt, Enc::Ascii),
         2 => (Engine::Pike, Enc::Utf8),
         _ => (Engine::Bt, Enc::Utf8),
     };
-    let lim = match_limit(&q.hay, q.start) + 2;
-    match find_all(re, eng, enc, &q.hay, q.start, lim.min(q.take.saturating_sub(1)), 600_000) {
+    let lim = match_limit(text, q.start) + 2;
+    match find_all(re, eng, enc, text, q.start, lim.min(q.take.saturating_sub(1)), 600_000) {
         // when `take` truncates, find_all reports Overrun after take items: normalise
         Out::Overrun(mut v) => {
             v.truncate(q.take.min(v.len()));
@@ -110,10 +146,14 @@ pub fn check(case: &Case, l: &mut Local) -> Verdict {
         fresh.push(o);
     }
     // long-lived regex, forward then backward order
+    let mut buf = String::with_capacity(64);
     for pass in 0..2 {
         let order: Vec<usize> = if pass == 0 { (0..qs.len()).collect() } else { (0..qs.len()).rev().collect() };
         for i in order {
-            let o = run_query(&re, &qs[i]);
+            // the haystack lives in a re-used buffer: same address, often the same length, different content
+            buf.clear();
+            buf.push_str(&qs[i].hay);
+            let o = run_query_on(&re, &qs[i], &buf);
             if o.is_cut() {
                 return Verdict::Skip("cut_by_fuel");
             }
